@@ -149,6 +149,31 @@ def explore(ctx):
                     failures.append({'kind': 'spec', 'what': 'format output %r does not keep the literal text of %r' % (line, tmpl),
                                      'payload': {'query': c.query, 'mode': c.mode, 'input_lines': c.lines}})
                     break
+    # ---- format templates that name the columns of an aggregate table in ANY order, or twice: each placeholder is that row's
+    # cell, wherever the column stands in the table (expected text from the -o json output of the same run)
+    flines = [json.dumps({'k': k, 's': s_, 'v': v}) + '\n' for k, s_, v in (('a', 'x', 1), ('b', 'y', 2), ('a', 'x', 3), ('c', 'x', 4), ('b', 'y', 5), ('a', 'z', 6))]
+    for q, cols_ in (('* | json | count by k', ['k', '_count']), ('* | json | count, sum(v) as t by k, s', ['k', 's', '_count', 't']),
+                     ('* | json | count by k | sort by k', ['k', '_count']), ('* | json | fields k, v', ['k', 'v'])):
+        oj = aglib.run_impl_one(q, ''.join(flines).encode('utf8'), 'json')
+        try:
+            jrows = [r for l in oj['out'].decode('utf8').split('\n') if l.strip() for r in (json.loads(l) if l.lstrip().startswith('[') else [json.loads(l)])]
+        except ValueError:
+            jrows = None
+        if oj['rc'] != 0 or not jrows:
+            failures.append({'kind': 'spec', 'what': 'format family: the -o json run failed', 'payload': {'query': q, 'input_lines': flines}})
+            continue
+        orders = [list(reversed(cols_)), cols_ + cols_[:1], [cols_[-1], cols_[0], cols_[-1]], cols_[1:] + cols_[:1]]
+        for order in orders:
+            tmpl = ' | '.join('{%s}' % c_ for c_ in order)
+            of = aglib.run_impl_one(q, ''.join(flines).encode('utf8'), 'format=' + tmpl)
+            evals += 1
+            txt = lambda v: 'None' if v is None else (v if isinstance(v, str) else str(v))
+            exp = ''.join(' | '.join(txt(r.get(c_)) for c_ in order) + '\n' for r in jrows)
+            got = of['out'].decode('utf8', 'replace')
+            if of['rc'] != 0 or got != exp:
+                failures.append({'kind': 'spec', 'what': '-o format=%r prints %r, the cells of the table are %r' % (tmpl, got[:300], exp[:300]),
+                                 'payload': {'query': q, 'input_lines': flines, 'mode': 'format=' + tmpl, 'expected_stdout': exp}})
+                break
     # ---- CLI: unknown -o values, empty/malformed format strings, -o together with --format: rejected before any input is read
     cli = [(['-o', 'jsn'], False), (['-o', ''], False), (['-o', 'format='], False), (['-o', 'format'], False), (['--format', ''], False),
            (['-o', 'format={'], False), (['-o', 'format=}x'], False), (['--format', '{a'], False), (['-o', 'json', '--format', '{a}'], False),
